@@ -4,4 +4,5 @@
 //! thin pass-through constructors for crate-private types so that an external
 //! harness can drive and observe them.
 
+pub mod facade;
 pub mod iotap;
